@@ -407,6 +407,8 @@ class dictable(Dict):
             elif is_strs(item):
                 return type(self)(super(dictable, self).__getitem__(item))
             elif is_bools(item):
+                if len(item) != len(self) and len(item) != 1: ## zipper would repeat the row of a one-row table once per flag 
+                    raise ValueError('a mask of length %s does not fit a table of length %s'%(len(item), len(self)))
                 res = type(self)([row for row, tf in zipper(list(self), item) if tf])
                 return res if len(res) else type(self)([], self.keys())
             elif is_ints(item):
